@@ -268,7 +268,11 @@ func solveAll(obls []*Obligation, o *checkOpts) {
 					}
 				}
 			}
-			ob.Res = SolveVariants(files, o.timeout, o.seed, o.tier == "thorough" && ob.Expect == "unsat")
+			to := o.timeout
+			if ob.Slow {
+				to *= 6 // clauses marked @slow: known to need tens of seconds (64-bit adder identities)
+			}
+			ob.Res = SolveVariants(files, to, o.seed, o.tier == "thorough" && ob.Expect == "unsat")
 		}()
 	}
 	wg.Wait()
